@@ -1088,6 +1088,240 @@ fn values_offset_shapes_and_big_counts(st: &mut Stats) {
     }
 }
 
+// ---------------------------------------------------------------------------------------------
+// hand-written custom codecs embedded in generated tables: PackedDeltas / PackedPointNumbers.
+// write with write-fonts, read with the read-fonts iterators, compare the values (oracle) and print the
+// (input, bytes, decoded) triple for the Coq model (C10's encoder / decoder, imported by coq/C04/Codec.v).
+// ---------------------------------------------------------------------------------------------
+fn codec_deltas(st: &mut Stats, cw: &mut CaseWriter, key: &str, ds: &[i32], model: bool) {
+    use write_fonts::read::tables::variations as rv;
+    st.evaluations += 1;
+    let v = ds.to_vec();
+    let r = catch(AssertUnwindSafe(|| {
+        let bytes = dump_table(&wt::variations::PackedDeltas::new(v.clone())).map_err(|e| e.to_string())?;
+        let back: Vec<i32> = rv::PackedDeltas::consume_all(FontData::new(&bytes)).iter().collect();
+        // (the count-known form, PackedDeltas::new, is crate-private: exercised through gvar below)
+        let back_n: Vec<i32> = back.clone();
+        Ok::<_, String>((bytes, back, back_n))
+    }));
+    match r {
+        Ok(Ok((bytes, back, back_n))) => {
+            if back == ds && back_n == ds {
+                st.count("codec.deltas.ok");
+                st.nontrivial(key);
+            } else {
+                st.count("codec.deltas.differs");
+                let i = back.iter().zip(ds.iter()).position(|(a, b)| a != b).unwrap_or(back.len().min(ds.len()));
+                let k = format!("codec:PackedDeltas:{}", key);
+                let v = json!({"key": k, "outcome": "decoded deltas differ", "first_diff_index": i, "written": ds.get(i), "reread": back.get(i), "written_len": ds.len(), "reread_len": back.len(), "reread_n_len": back_n.len()});
+                fail(st, &k, v);
+            }
+            if model && bytes.len() <= 1500 {
+                cw.push(format!("CDeltas {} {} {}", czlist(ds.iter().map(|x| *x as i128)), cbytes(&bytes), czlist(back.iter().map(|x| *x as i128))));
+            }
+        }
+        other => {
+            let k = format!("codec:PackedDeltas:{}", key);
+            let v = json!({"key": k, "outcome": "writer / reader failed", "detail": format!("{:?}", other).chars().take(300).collect::<String>()});
+            fail(st, &k, v);
+        }
+    }
+}
+
+fn codec_points(st: &mut Stats, cw: &mut CaseWriter, key: &str, pts: Option<&[u16]>, model: bool) {
+    use write_fonts::read::tables::variations as rv;
+    use wt::variations::PackedPointNumbers as W;
+    st.evaluations += 1;
+    let w = match pts {
+        None => W::All,
+        Some(p) => W::Some(p.to_vec()),
+    };
+    let r = catch(AssertUnwindSafe(|| {
+        let bytes = dump_table(&w).map_err(|e| e.to_string())?;
+        let mut more = bytes.clone();
+        more.extend_from_slice(&[0xAA, 0xBB, 0xCC]);
+        let (p, rest) = rv::PackedPointNumbers::split_off_front(FontData::new(&more));
+        let count = p.count();
+        let back: Option<Vec<u16>> = if count == 0 { None } else { Some(p.iter().take(count as usize + 3).collect()) };
+        Ok::<_, String>((bytes, count, back, rest.as_bytes().to_vec()))
+    }));
+    let k = format!("codec:PackedPointNumbers:{}", key);
+    match r {
+        Ok(Ok((bytes, count, back, rest))) => {
+            // an empty Some(list) is written as the single byte 0 = "all points" (C10 notes); expected
+            let expect: Option<Vec<u16>> = match pts {
+                Some(p) if !p.is_empty() => Some(p.to_vec()),
+                _ => None,
+            };
+            let ok = back == expect && rest == [0xAA, 0xBB, 0xCC] && count as usize == expect.as_ref().map(|v| v.len()).unwrap_or(0);
+            if ok {
+                st.count("codec.points.ok");
+                st.nontrivial(key);
+            } else {
+                st.count("codec.points.differs");
+                let v = json!({"key": k, "outcome": "decoded point numbers / consumed length differ", "written_len": pts.map(|p| p.len()), "reread_count": count, "reread_len": back.as_ref().map(|b| b.len()), "bytes_head": &bytes[..bytes.len().min(4)], "trailing_after_split": rest.len()});
+                fail(st, &k, v);
+            }
+            if model && bytes.len() <= 1500 {
+                let cp = |o: Option<Vec<i128>>| copt(o.map(|v| czlist(v)));
+                cw.push(format!("CPoints {} {} {}", cp(pts.map(|p| p.iter().map(|x| *x as i128).collect())), cbytes(&bytes), cp(back.map(|b| b.iter().map(|x| *x as i128).collect()))));
+            }
+        }
+        Ok(Err(e)) => {
+            // validation refuses > 32767 points: not in the property's quantifier
+            st.count("codec.points.invalid");
+            let _ = e;
+        }
+        Err(p) => {
+            let v = json!({"key": k, "outcome": "writer / reader panicked", "panic": p});
+            fail(st, &k, v);
+        }
+    }
+}
+
+fn values_custom_codecs(st: &mut Stats, cw: &mut CaseWriter, rng: &mut Rng) {
+    // ---- PackedDeltas: a grammar of run kinds (zero / i8 / i16 / i32) in every ordered pair and triple
+    let kinds: [(&str, Vec<i32>); 4] = [
+        ("Z", vec![0]),
+        ("B", vec![-128, 127, -1, 1, 5]),
+        ("W", vec![-129, 128, -32768, 32767, 1000]),
+        ("L", vec![-32769, 32768, 70000, i32::MIN, i32::MAX, -70000]),
+    ];
+    let lens = [1usize, 2, 63, 64, 65];
+    let run = |k: usize, n: usize, phase: usize| -> Vec<i32> { (0..n).map(|i| kinds[k].1[(i + phase) % kinds[k].1.len()]).collect() };
+    for k in 0..4 {
+        for &n in &[0usize, 1, 2, 63, 64, 65, 127, 128, 129, 200] {
+            for phase in 0..kinds[k].1.len().min(3) {
+                codec_deltas(st, cw, &format!("{}{}p{}", kinds[k].0, n, phase), &run(k, n, phase), n <= 65);
+            }
+        }
+    }
+    for a in 0..4 {
+        for b in 0..4 {
+            for &la in &lens {
+                for &lb in &lens {
+                    for phase in 0..2 {
+                        let mut v = run(a, la, phase);
+                        v.extend(run(b, lb, phase + 1));
+                        codec_deltas(st, cw, &format!("{}{}{}{}p{}", kinds[a].0, la, kinds[b].0, lb, phase), &v, la + lb <= 66 && phase == 0);
+                    }
+                }
+            }
+            for c in 0..4 {
+                for _ in 0..3 {
+                    let (la, lb, lc) = (*rng.pick(&[1usize, 1, 2, 3, 64]), *rng.pick(&[1usize, 1, 2, 63]), *rng.pick(&[1usize, 2, 65]));
+                    let ph = rng.below(5) as usize;
+                    let mut v = run(a, la, ph);
+                    v.extend(run(b, lb, ph + 1));
+                    v.extend(run(c, lc, ph + 2));
+                    codec_deltas(st, cw, &format!("{}{}{}{}{}{}p{}", kinds[a].0, la, kinds[b].0, lb, kinds[c].0, lc, ph), &v, la + lb + lc <= 70);
+                }
+            }
+        }
+    }
+    // random mixtures
+    for i in 0..200 {
+        let n = rng.below(40) as usize;
+        let v: Vec<i32> = (0..n)
+            .map(|_| {
+                let k = rng.below(4) as usize;
+                *rng.pick(&kinds[k].1)
+            })
+            .collect();
+        codec_deltas(st, cw, &format!("random{}", i), &v, true);
+    }
+    // ---- PackedPointNumbers
+    codec_points(st, cw, "All", None, true);
+    let build = |first: u16, gaps: &mut dyn FnMut(usize) -> u32, n: usize| -> Vec<u16> {
+        let mut v = vec![];
+        let mut cur = first as u32;
+        for i in 0..n {
+            if i > 0 {
+                cur += gaps(i);
+            }
+            if cur > 65535 {
+                break;
+            }
+            v.push(cur as u16);
+        }
+        v
+    };
+    let counts = [0usize, 1, 2, 126, 127, 128, 129, 130, 255, 256, 257, 300];
+    for &n in &counts {
+        for &first in &[0u16, 5, 255, 256, 300] {
+            // byte gaps only, word gaps only (as far as u16 allows), alternating blocks of k byte / k word gaps
+            codec_points(st, cw, &format!("n{}:first{}:gap1", n, first), Some(&build(first, &mut |_| 1, n)), n <= 130);
+            codec_points(st, cw, &format!("n{}:first{}:gap255", n, first), Some(&build(first, &mut |_| 255, n)), n <= 130);
+            codec_points(st, cw, &format!("n{}:first{}:gap256", n, first), Some(&build(first, &mut |_| 256, n)), n <= 130);
+            for &k in &[1usize, 2, 127, 128, 129] {
+                codec_points(st, cw, &format!("n{}:first{}:blocks{}", n, first, k), Some(&build(first, &mut |i| if (i / k) % 2 == 0 { 1 } else { 257 }, n)), n <= 130 && k <= 2);
+            }
+            codec_points(st, cw, &format!("n{}:first{}:one-word-gap-in-the-middle", n, first), Some(&build(first, &mut |i| if i == n / 2 { 1000 } else { 3 }, n)), n <= 130);
+        }
+    }
+    // duplicates (gap 0) are legal for the codec
+    codec_points(st, cw, "dups", Some(&[7, 7, 7, 8, 8, 300, 300]), true);
+    // ---- embedded: gvar glyph variation data whose private point list has exactly n points
+    {
+        use wt::gvar::*;
+        for &n_req in &[1usize, 2, 126, 127, 128, 129, 130, 255, 256, 257] {
+            for &stride in &[1usize, 3] {
+                let total = 800;
+                let deltas: Vec<GlyphDelta> = (0..total)
+                    .map(|i| if i % stride == 0 && i / stride < n_req { GlyphDelta::required((i as i16 % 300) - 150, 1000 - i as i16) } else { GlyphDelta::optional(2000 + i as i16, -3000 - i as i16) })
+                    .collect();
+                let key = format!("gvar:req{}:stride{}", n_req, stride);
+                st.evaluations += 1;
+                let d2 = deltas.clone();
+                let r = catch(AssertUnwindSafe(move || {
+                    let gv = GlyphVariations::new(GlyphId::new(0), vec![GlyphDeltas::new(vec![Tent::new(F2Dot14::from_f32(1.0), None)], d2)]);
+                    let g = Gvar::new(vec![gv], 1).map_err(|e| e.to_string())?;
+                    let bytes = dump_table(&g).map_err(|e| e.to_string())?;
+                    let t = write_fonts::read::tables::gvar::Gvar::read(FontData::new(&bytes)).map_err(|e| e.to_string())?;
+                    let data = t.glyph_variation_data(GlyphId::new(0)).map_err(|e| e.to_string())?.ok_or("no data")?;
+                    let mut out = vec![];
+                    let mut n_tuples = 0;
+                    for tup in data.tuples() {
+                        n_tuples += 1;
+                        for d in tup.deltas() {
+                            out.push((d.position, d.x_delta, d.y_delta));
+                        }
+                    }
+                    Ok::<_, String>((n_tuples, out))
+                }));
+                let k = format!("codec:{}", key);
+                match r {
+                    Ok(Ok((n_tuples, out))) => {
+                        let mut bad = n_tuples != 1;
+                        let mut seen = vec![false; deltas.len()];
+                        for (pos, x, y) in &out {
+                            match deltas.get(*pos as usize) {
+                                Some(d) if d.x as i32 == *x && d.y as i32 == *y => seen[*pos as usize] = true,
+                                _ => bad = true,
+                            }
+                        }
+                        if deltas.iter().zip(seen.iter()).any(|(d, s)| d.required && !*s) {
+                            bad = true;
+                        }
+                        if bad {
+                            st.count("codec.gvar.differs");
+                            let v = json!({"key": k, "outcome": "re-read gvar deltas differ from the written ones", "reread_points": out.len(), "required": n_req});
+                            fail(st, &k, v);
+                        } else {
+                            st.count("codec.gvar.ok");
+                            st.nontrivial(&key);
+                        }
+                    }
+                    other => {
+                        let v = json!({"key": k, "outcome": "gvar build / read failed", "detail": format!("{:?}", other).chars().take(300).collect::<String>()});
+                        fail(st, &k, v);
+                    }
+                }
+            }
+        }
+    }
+}
+
 fn values_misc(st: &mut Stats, rng: &mut Rng) {
     // maxp 0.5 / 1.0
     {
@@ -1452,7 +1686,7 @@ where
     };
     st.count(&format!("shard.{}", ty));
     st.evaluations += 1;
-    cw.push(format!("(W_{}, R_{}, {}, {}, {})", ty, ty, cvs(&written), cbytes(&bytes), cvs(&rr)));
+    cw.push(format!("CSchema (W_{}, R_{}, {}, {}, {})", ty, ty, cvs(&written), cbytes(&bytes), cvs(&rr)));
 }
 
 fn shards(st: &mut Stats, cw: &mut CaseWriter, rng: &mut Rng, thorough: bool) {
@@ -1594,9 +1828,9 @@ fn main() {
     let mut st = Stats::new();
     let mut cw = CaseWriter::new(
         &dir,
-        "From Coq Require Import ZArith List String. Import ListNotations. Open Scope Z_scope. Open Scope string_scope.\nFrom FV Require Import Lib.Cases C04.Model C04.Gen.",
-        "shard_case",
-        "check_case",
+        "From Coq Require Import ZArith List String. Import ListNotations. Open Scope Z_scope. Open Scope string_scope.\nFrom FV Require Import Lib.Cases C04.Model C04.Gen C04.Codec.",
+        "c04_case",
+        "check_any",
         250,
     );
     corpus(&mut st);
@@ -1610,6 +1844,7 @@ fn main() {
     values_distinct_fields(&mut st);
     values_offset_shapes_and_big_counts(&mut st);
     shards(&mut st, &mut cw, &mut rng, thorough);
+    values_custom_codecs(&mut st, &mut cw, &mut rng);
     let shards = cw.finish();
     let _ = &mut cw;
     st.v.insert("shards".into(), shards.into());
